@@ -45,9 +45,20 @@ EXPLANATION = (
     "recoverable in the (re-fetched, narrower MODE_READ) servermap makes the request fail, it is never replaced by that map's best "
     "version; the MutableFileVersion is built for component 1 of that result, stores it as self._version (never re-bound) and "
     "_read hands self._version to Retrieve. "
+    "(10) completion policy of the mapupdate in the all-servers modes (the modes for which (8) showed that every server is asked): "
+    "ServermapUpdater._check_for_done, explored per mode with the self.mode tests folded on both edges, reaches self._done() in "
+    "MODE_CHECK / MODE_REPAIR only on paths on which self._queries_outstanding was found empty, or self._must_query was found "
+    "empty - the latter counts only for the modes in which ServermapUpdater.update makes _must_query the set of ALL servers it "
+    "sends the initial queries to and leaves extra_servers empty (decided by the same per-mode exploration of update()); "
+    "self._done is called / handed on only by _check_for_done and only _done fires _done_deferred with a result; a server is "
+    "taken out of _must_query only by discard(<own server parameter>) inside the handlers registered on its own query Deferred "
+    "in _do_query (_got_results, _query_failed), and in _got_results only behind the DeferredList of the per-share processing "
+    "(a direct call only where the update was found stopped) - so no early exit (fast path, timer, early retirement) can end a "
+    "check / repair mapupdate while an asked server has not answered, whose late answer would be dropped. "
     "Undecided: post-repair share counts / placement beyond update_goal() being run (what update_goal chooses, whether the "
     "writes succeed, that get_results reports success unconditionally), an unrecoverable version with the same seqnum as the best one, "
-    "the completion policy of the mapupdate after the initial queries were sent (that every queried server is waited for), that "
+    "the completion policy of the bounded modes (MODE_READ / MODE_WRITE / MODE_ANYTHING), that a query is always answered or "
+    "fails (a server that never does either stalls the all-servers update; that is a liveness, not a verdict, matter), that "
     "Retrieve decodes the verinfo it is given (C-properties of the retrieve path), that the requested version is checked for "
     "recoverability before it is returned (a miss there makes the download fail, it does not change contents). "
     "FIXED FINDING (C14.8, construct allmydata.mutable.checker:MutableCheckAndRepairer, repo commit 08c5e2f): SERVERMAP_MODE was "
@@ -551,6 +562,152 @@ def _tuple_component(fn, fnorm, n, e, param, i):
     return isinstance(e, ast.Subscript) and isinstance(e.value, ast.Name) and e.value.id == param \
         and isinstance(e.slice, ast.Constant) and e.slice.value == i and not isinstance(e.slice.value, bool) \
         and not any(param in node_stores(m) for m in fn.cfg().nodes)
+
+
+# ------------------------------------------------- completion policy of the mapupdate (C14.10)
+UPD = "mutable.servermap:ServermapUpdater"
+OUT = "self._queries_outstanding"
+MUST = "self._must_query"
+
+
+def _mode_universe(idx):
+    folder = get_folder(idx)
+    common = idx.module("allmydata.mutable.common")
+    universe = frozenset(folder.module_const("mutable.common", nm) for nm in sorted(common.assigns) if nm.startswith("MODE_"))
+    if len(universe) < 2:
+        raise AnchorVanished("the MODE_* constants of allmydata.mutable.common")
+    return universe
+
+
+def _mode_refiner(idx, fn, fnorm):
+    """refine(n, lab, modes) -> the subset of `modes` for which the edge (n, lab) can be taken (self.mode tests are folded
+    over the MODE_* constants on both edges; any other test keeps all modes)."""
+    folder = get_folder(idx)
+
+    def mode_test(n):
+        t = n.ast
+        if not (isinstance(t, ast.Compare) and len(t.ops) == 1):
+            return None
+        a, b = t.left, t.comparators[0]
+        op = t.ops[0]
+        try:
+            if isinstance(op, (ast.In, ast.NotIn)) and fnorm.norm(n, a) == "self.mode":
+                b = fnorm.resolve(n, b)
+                if isinstance(b, (ast.Tuple, ast.List, ast.Set)):
+                    return frozenset(folder.fold(e, fn.module, fn.cls) for e in b.elts), isinstance(op, ast.In)
+            if isinstance(op, (ast.Eq, ast.NotEq, ast.Is, ast.IsNot)):
+                pos = isinstance(op, (ast.Eq, ast.Is))
+                if fnorm.norm(n, a) == "self.mode":
+                    return frozenset([folder.fold(b, fn.module, fn.cls)]), pos
+                if fnorm.norm(n, b) == "self.mode":
+                    return frozenset([folder.fold(a, fn.module, fn.cls)]), pos
+        except NotConstant:
+            return None
+        return None
+
+    def refine(n, lab, modes):
+        if n.kind == "test" and isinstance(lab, tuple) and lab[0] in ("T", "F"):
+            m = mode_test(n)
+            if m is not None:
+                S, pos = m
+                return (modes & S) if (pos == (lab[0] == "T")) else (modes - S)
+        return modes
+    return refine
+
+
+def _empty_fact(f, what):
+    """Does the edge fact say that the set `what` is empty?"""
+    if not f:
+        return False
+    op, l, r = f
+    if op == "false" and l == what:
+        return True
+    ln = "len(%s)" % what
+    if op == "==" and {l, r} == {ln, "0"}:
+        return True
+    if op == "<=" and l == ln and r == "0":
+        return True
+    if op == "<" and l == ln and r == "1":
+        return True
+    return False
+
+
+def _must_query_is_everyone(idx, r, full):
+    """The modes (among `full`, the all-servers modes) in which ServermapUpdater.update makes self._must_query the set of ALL
+    the servers it sends a query to and leaves no extra server to be queried later: there `_must_query is empty` implies that
+    no query is outstanding."""
+    up = idx.func(UPD + ".update")
+    cfg = up.cfg()
+    un = FlowNorm(up)
+    refine = _mode_refiner(idx, up, un)
+    sends = cfg.find(has_call("_send_initial_requests"))
+    qs = {c.args[0].id for n in sends for c in calls_at(n, "_send_initial_requests") if len(c.args) == 1 and isinstance(c.args[0], ast.Name)}
+    if len(qs) != 1:
+        raise AnchorVanished("self._send_initial_requests(<list>) in ServermapUpdater.update")
+    q = qs.pop()
+    mstores = [n for n in cfg.nodes if n.kind == "stmt" and MUST in node_stores(n)]
+    if not mstores:
+        raise AnchorVanished("self._must_query = .. in ServermapUpdater.update")
+
+    def strip(e):
+        while isinstance(e, ast.Call) and isinstance(e.func, ast.Name) and e.func.id in ("set", "list", "frozenset", "tuple", "sorted") \
+                and len(e.args) == 1 and not e.keywords:
+            e = e.args[0]
+        if isinstance(e, ast.Subscript) and isinstance(e.slice, ast.Slice) and e.slice.lower is None and e.slice.upper is None \
+                and e.slice.step is None:
+            return strip(e.value)
+        return e
+
+    def val(n, name):
+        v = assign_value(n, name) if n.kind == "stmt" else None
+        if v is None:
+            return "?"
+        v = strip(v)
+        if isinstance(v, (ast.List, ast.Tuple, ast.Set)) and not v.elts:
+            return "[]"
+        if isinstance(v, ast.Call) and isinstance(v.func, ast.Name) and v.func.id in ("set", "list") and not v.args:
+            return "[]"
+        return ast.dump(v)
+
+    locs = set()
+    for n in mstores:
+        v = strip(assign_value(n, MUST)) if assign_value(n, MUST) is not None else None
+        if isinstance(v, ast.Name):
+            locs.add(v.id)
+    qd0 = ast.dump(ast.Name(id=q, ctx=ast.Load()))
+
+    def tr(n, lab, nxt, st):
+        modes, env = st
+        if lab == "exc":
+            return None
+        modes = refine(n, lab, modes)
+        if not modes:
+            return None
+        if n.kind in ("stmt", "iter", "with"):
+            sts = node_stores(n)
+            env = dict(env)
+            if "self.mode" in sts:
+                modes = full
+            for nm in ({q} | locs | {"self.extra_servers", MUST}) & sts:
+                env[nm] = val(n, nm)
+            env = tuple(sorted(env.items()))
+        return (modes, env)
+    visited, _p = explore(cfg, (frozenset(full), ()), tr)
+    r.count(len(visited))
+    good, bad = set(), set()
+    for (nid, (modes, env)) in visited:
+        if cfg.nodes[nid] not in sends:
+            continue
+        env = dict(env)
+        m = env.get(MUST, "?")
+        for _ in range(3):
+            for nm in locs:
+                if m == ast.dump(ast.Name(id=nm, ctx=ast.Load())):
+                    m = env.get(nm, "?")
+        qv = env.get(q, "?")
+        ok = m != "?" and (m == qd0 or (qv != "?" and m == qv)) and env.get("self.extra_servers") == "[]"
+        (good if ok else bad).update(modes)
+    return good - bad
 
 
 def run(ctx: Context):
@@ -1844,6 +2001,163 @@ def run(ctx: Context):
             a = arg(c, 3, "verinfo")
             r.require(a is not None and rn.norm(m, a) == "self._version", mfv_read, mfv_read.loc(c),
                       "MutableFileVersion._read retrieves version %s, not the version this object was built for" % (src(mfv_read, a) if a is not None else "?"))
+
+
+    # -- 10. completion policy: in the all-servers modes the mapupdate ends only when no query is outstanding ----------
+    # The verdict "a single version, no others" (C14.1/.2) and the repairer's refusal gates (C14.3) are statements about
+    # the whole grid: C14.8 makes the checker / repairer ASK every server, this rule makes them WAIT for every answer.  An
+    # answer that arrives after _done() is dropped (_got_results: "but we're not running"), so a share of another version
+    # held by a slow server would simply not exist for the check.
+    with ctx.rule("C14.10", "R1/E3/R4", "ServermapUpdater._check_for_done: in the modes that query every server (MODE_CHECK, "
+                  "MODE_REPAIR) _done() is reached only after _queries_outstanding (or _must_query, which update() makes the set of "
+                  "all queried servers in these modes) was found empty; only _check_for_done ends the update; a server leaves "
+                  "_must_query only in the handler of its own answer, after the shares of the answer were processed", expected=6) as r:
+        full = _all_server_modes(idx, r)
+        if not full:
+            raise AnalysisError("no mode of ServermapUpdater.update queries the full server list (see C14.8)")
+        full = frozenset(full)
+        mq_modes = _must_query_is_everyone(idx, r, full)
+        r.site("ServermapUpdater.update", None, "modes in which _must_query holds every queried server: %s" % sorted(map(str, mq_modes)))
+        cd = idx.func(UPD + "._check_for_done")
+        ccfg = cd.cfg()
+        cn = FlowNorm(cd)
+        refine = _mode_refiner(idx, cd, cn)
+        dones = [n for n in ccfg.nodes if n.kind in ("stmt", "test") and any(call_name(c) == "self._done" for c in node_calls(n))]
+        if not dones:
+            raise AnchorVanished("self._done() in ServermapUpdater._check_for_done")
+        for n in dones:
+            r.site(cd, n.ast, "ends the update")
+
+        def tr(n, lab, nxt, st):
+            modes, ev = st
+            if lab == "exc":
+                return None
+            modes = refine(n, lab, modes)
+            if not modes:
+                return None
+            if n.kind == "test":
+                f = cn.edge_fact(n, lab)
+                if _empty_fact(f, OUT):
+                    ev = ev | {"out"}
+                if _empty_fact(f, MUST):
+                    ev = ev | {"must"}
+            elif n.kind in ("stmt", "iter", "with") and n not in dones:
+                sts = node_stores(n)
+                if "self.mode" in sts:
+                    modes = full
+                if OUT in sts or any(call_tail(c) in ("_send_more_queries", "_do_query", "_send_initial_requests") for c in node_calls(n)) \
+                        or any(call_name(c).startswith(OUT + ".") and call_tail(c) in ("add", "update") for c in node_calls(n)):
+                    ev = frozenset()
+                if MUST in sts:
+                    ev = ev - {"must"}
+            return (modes, ev)
+        visited, parent = explore(ccfg, (full, frozenset()), tr)
+        r.count(len(visited))
+        seen_bad = set()
+        for (nid, (modes, ev)) in sorted(visited, key=lambda x: (x[0], sorted(map(str, x[1][0])), sorted(x[1][1]))):
+            n = ccfg.nodes[nid]
+            if n not in dones:
+                continue
+            waiting = {m for m in modes if not ("out" in ev or ("must" in ev and m in mq_modes))}
+            if not waiting or nid in seen_bad:
+                continue
+            seen_bad.add(nid)
+            w = witness(ccfg, parent, (nid, (modes, ev)))
+            r.violation(cd, cd.loc(n.ast), "_check_for_done ends the mapupdate (`%s`) in %s on a path on which neither "
+                        "self._queries_outstanding nor self._must_query was found empty: servers that were asked have not answered "
+                        "yet, their answers are dropped once _done() ran, so a share of another (e.g. newer) version held by a slow "
+                        "server is never seen and check() reports the file healthy / repair passes its refusal gates (path: %s)" % (
+                            src(cd, n.ast), "/".join(sorted(map(str, waiting))), w.brief()), w)
+        # only _check_for_done ends the update, and only _done fires the result
+        dn = idx.func(UPD + "._done")
+        for (f, node, is_call) in _uses_everywhere(idx, "_done", module_prefix="allmydata.mutable.servermap"):
+            if not f.qual.startswith(idx.cls(UPD).qual + "."):
+                continue
+            if isinstance(node, ast.Call):
+                if call_name(node) != "self._done":
+                    continue
+            elif attr_path(node) != "self._done":
+                continue
+            r.require(f is cd, f, f.loc(node), "%s %s self._done outside _check_for_done: the mapupdate can be ended while queries "
+                      "are outstanding (e.g. by a timer), and the late answers are dropped" % (short(f), "calls" if is_call else "hands on"))
+        fires = 0
+        pfx = idx.cls(UPD).qual + "."
+        for f in list(idx.funcs.values()):
+            if not f.qual.startswith(pfx):
+                continue
+            for x in func_own_nodes(f):
+                if isinstance(x, ast.Attribute) and x.attr == "callback" and attr_path(x) == "self._done_deferred.callback":
+                    fires += 1
+                    r.site(f, x, "fires the mapupdate's result")
+                    r.require(f is dn, f, f.loc(x), "%s fires self._done_deferred with a result: only _done (called by "
+                              "_check_for_done once every answer is in) may hand the servermap out" % short(f))
+        if not fires:
+            raise AnchorVanished("self._done_deferred.callback in ServermapUpdater._done")
+        # a server leaves _must_query / _queries_outstanding only through the handlers of its own query
+        dq = idx.func(UPD + "._do_query")
+        handlers = set()
+        for x in registrations(dq):
+            t = x.target
+            if isinstance(t, ast.Attribute) and attr_path(t) and attr_path(t).startswith("self."):
+                handlers.add(t.attr)
+        if "_got_results" not in handlers:
+            raise AnchorVanished("_got_results registered on the query Deferred in _do_query")
+        n_rm = 0
+        for f in list(idx.funcs.values()):
+            if not f.qual.startswith(pfx):
+                continue
+            fn_ = None
+            for n in f.cfg().nodes:
+                if n.ast is None:
+                    continue
+                for c in node_calls(n):
+                    if not (isinstance(c.func, ast.Attribute) and attr_path(c.func.value) == MUST
+                            and c.func.attr in ("discard", "remove", "pop", "clear", "difference_update", "intersection_update")):
+                        continue
+                    n_rm += 1
+                    r.site(f, c, "a server leaves _must_query")
+                    top = f
+                    while top.parent is not None:
+                        top = top.parent
+                    own_handler = top.name in handlers and top.name != "_check_for_done"
+                    if fn_ is None:
+                        fn_ = FlowNorm(f)
+                    a = fn_.norm(n, c.args[0]) if len(c.args) == 1 else None
+                    r.require(own_handler and c.func.attr in ("discard", "remove") and a is not None and a in top.params, f, f.loc(c),
+                              "%s removes %s from self._must_query outside the handler of that server's own answer: _check_for_done then "
+                              "sees an empty _must_query and ends an all-servers mapupdate while answers are outstanding" % (
+                                  short(f), src(f, c.args[0]) if len(c.args) == 1 else "servers"))
+                if n.kind == "stmt" and MUST in node_stores(n) and f.name != "update":
+                    r.violation(f, f.loc(n.ast), "%s re-binds self._must_query while the update is running" % short(f))
+        if not n_rm:
+            raise AnchorVanished("self._must_query.discard(server) in the query handlers")
+        # ... and in _got_results only after the shares of the answer were processed (or when the update is over already)
+        gr = idx.func(UPD + "._got_results")
+        gcfg = gr.cfg()
+        gn = FlowNorm(gr)
+        dps = [nf for nf in gr.nested.values() if any(isinstance(c.func, ast.Attribute) and attr_path(c.func.value) == MUST
+                                                      for c in calls_in_func(nf))]
+        for nf in dps:
+            regs = [x for x in registrations(gr) if isinstance(x.target, ast.Name) and x.target.id == nf.name and x.kind in ("cb", "both")]
+            r.site(gr, nf.node, "retires the query after the shares were processed")
+            r.require(bool(regs), gr, gr.loc(nf.node), "%s (which takes the server out of _must_query) is not registered on the Deferred "
+                      "of the per-share processing" % nf.name)
+            for x in regs:
+                dv = [v for v in all_defs(gr).get(x.recv, [])] if x.recv else []
+                lists = [v for v in dv if isinstance(v, ast.Call) and call_tail(v) in ("DeferredList", "gatherResults")]
+                r.require(bool(lists), gr, gr.loc(x.call), "%s is registered on %s, which is not the DeferredList of the per-share "
+                          "processing: the server is retired before its shares are in the servermap" % (nf.name, x.recv or "a Deferred"))
+
+            def direct(m, _nf=nf):
+                return m.kind == "stmt" and any(isinstance(c.func, ast.Name) and c.func.id == _nf.name for c in node_calls(m))
+
+            def stopped(m, lab):
+                f = gn.edge_fact(m, lab)
+                return bool(f) and f[0] == "false" and f[1] == "self._running"
+            for (t, w) in find_path_avoiding(gcfg, direct, gate_edge=stopped):
+                r.violation(gr, gr.loc(t.ast), "_got_results calls %s() directly while the update is running: the server leaves "
+                            "_must_query before the shares of its answer have been validated and recorded, so the update can end "
+                            "without them (path: %s)" % (nf.name, w.brief()), w)
 
 
 def call_name_of(e):
